@@ -14,10 +14,10 @@ import sys
 from harness import common, gen_tree, gen_text, trees, treeimpl, updimpl
 from harness.common import cps, uncps
 from harness.props.c01 import all_texts
-from harness.props import c03, c19
+from harness.props import c03, c10, c19
 
 BRIDGE = ('Gemato.Bridge.Cli', 'Gemato.Bridge.SrcCli', 'Gemato.Bridge.SrcText', 'Gemato.Bridge.SrcVerify', 'Gemato.Bridge.SrcLoader', 'Gemato.Bridge.SrcWalk', 'Gemato.Bridge.SrcUpdate')
-PROPS = ['Gemato.Props.C18']
+PROPS = ['Gemato.Props.C18', 'Gemato.Props.C18b']
 PROFILES = ['default', 'ebuild', 'old-ebuild']
 ERRNO_NAMES = {errno.ENOENT: 'ENOENT', errno.ENOTDIR: 'ENOTDIR', errno.EISDIR: 'EISDIR'}
 
@@ -465,7 +465,8 @@ def run(ctx):
                 'through update (whole tree and sub-directories) and create with each profile, then verify; odd lines named by the '
                 'property (duplicate IGNOREs, unknown hashes, out-of-range and surrogate/NUL escapes, entries naming directories or '
                 'lying beneath a regular file, unreferenced sub-Manifests) plus C09 grammar lines; C19 repositories created with one '
-                'profile and updated with another. Oracle: main() returns a status, or an OSError naming an object that really '
+                'profile and updated with another; the library call update_entry_for_path + save_manifests within its contract on paths '
+                'listed once / several times / listed but gone / not listed. Oracle: main() returns a status, or an OSError naming an object that really '
                 'cannot be accessed escapes; anything else is the violation.')
     ctx.assumptions = ['top-level discovery is taken from the real find_top_level_manifest (property C15 has its own model)',
                        'OpenPGP verification is off (-P): signatures are C04/C05/C14',
@@ -482,6 +483,9 @@ def run(ctx):
             stream_odd(ctx, drv)
         for i in range(60 if q else 1500):
             stream_repo(ctx, drv)
+        # the library's single-path update within its contract (C10's stream; an internal error is a failure here)
+        for i in range(200 if q else 3000):
+            c10.path_case(ctx, drv, judge_internal=True, label='library/update-entry-for-path')
     finally:
         drv.close()
 
